@@ -263,6 +263,14 @@ def structural_mutants(rng):
         ("unknown timestamp pattern", S("var(Major)", "", 'var(ts("QQ"))')),
         ("unknown timestamp pattern 2", S('var(ts("YYYYY"))', "", "")),
         ("no component at all", S("", "", "")),
+        ("minor before major, literals in between", S('var(Minor), str("x"), uint(3), var(Major)', "", "")),
+        ("minor in build", S("var(Major)", "", "var(Minor)")),
+        ("epoch in build", S("var(Major)", "", "var(Epoch)")),
+        ("duplicate pre-release", S("var(Major)", "var(PreRelease), var(Post), var(PreRelease)", "")),
+        ("unknown timestamp pattern in extra_core", S("var(Major)", 'var(ts("Q"))', "")),
+        ("empty timestamp pattern", S("var(Major)", "", 'var(ts(""))')),
+        ("timestamp pattern in the wrong case", S("var(Major)", "", 'var(ts("yyyy"))')),
+        ("timestamp pattern with a foreign letter", S("var(Major)", "", 'var(ts("YYYYx"))')),
         ("unknown var name", S("var(Majr)", "", "")),
         ("unknown component kind", S("vars(Major)", "", "")),
         ("wrong type: string for uint", S('uint("5")', "", "")),
@@ -303,19 +311,27 @@ def work_refusal(bins, seed, n):
     env = core.base_env(bins)
     bad = []
     st = {"structural_mutants": 0, "textual_mutants": 0, "textual_refused": 0, "textual_still_valid": 0, "textual_oracle_cannot_read": 0}
+    import re as _re
     for desc, text in structural_mutants(rng):
-        for fmt in ("semver", "zerv"):
-            r = core.run_zerv(bins, ["version", "--source", "stdin", "--output-format", fmt], stdin=text, env=env)
+        # every consumer of "the schema in effect": version and flow, each output kind, and the same schema handed over as --schema-ron
+        cmds = [(["version", "--source", "stdin", "--output-format", fmt], text) for fmt in ("semver", "zerv", "pep440")]
+        cmds += [(["version", "--source", "stdin", "--output-template", "{{ major }}.{{ semver }}"], text), (["flow", "--source", "stdin"], text),
+                 (["flow", "--source", "stdin", "--output-format", "zerv"], text)]
+        m = _re.match(r"\(schema: (\(core: \[.*?\], extra_core: \[.*?\], build: \[.*?\]\)), vars: ", text)
+        if m and "zz: " not in text:
+            sch = m.group(1)
+            cmds += [(["version", "--source", "none", "--tag-version", "1.2.3", "--schema-ron", sch], None), (["flow", "--source", "none", "--tag-version", "1.2.3", "--schema-ron", sch], None),
+                     (["version", "--source", "none", "--tag-version", "1.2.3", "--schema-ron", sch, "--output-format", "zerv"], None)]
+        for argv, stdin_ in cmds:
+            r = core.run_zerv(bins, argv, stdin=stdin_, env=env)
             st["structural_mutants"] += 1
-            case = dict(kind="structural", desc=desc, stdin=text)
+            case = dict(kind="structural", desc=desc, stdin=stdin_, argv=argv)
             if r["timeout"]:
                 continue
             if "panicked" in r["err"]:
                 bad.append(("panic-in-binary", "%s: %s" % (desc, r["err"][:200]), case))
             elif r["exit"] == 0:
-                bad.append(("invalid-object-rendered", "%s: rendered %r instead of being rejected" % (desc, r["out"][:100]), case))
-            elif r["out"]:
-                bad.append(("stdout-on-failure", "%s: rejected but printed %r" % (desc, r["out"][:100]), case))
+                bad.append(("invalid-object-rendered", "%s: `zerv %s` rendered %r instead of rejecting it" % (desc, " ".join(argv[:6]), r["out"][:100]), case))
     for _ in range(n):
         schema = objgen.rand_schema(rng, ascii_only=True)
         v = objgen.rand_vars(rng, ascii_only=True)
@@ -428,7 +444,7 @@ def replay(ctx, doc):
     env = core.base_env(ctx.bins)
     if c["kind"] in ("structural", "textual", "bytes"):
         sin = c["stdin"].encode("latin-1") if c["kind"] == "bytes" else c["stdin"]
-        r = core.run_zerv(ctx.bins, ["version", "--source", "stdin", "--output-format", "semver"], stdin=sin, env=env)
+        r = core.run_zerv(ctx.bins, c.get("argv") or ["version", "--source", "stdin", "--output-format", "semver"], stdin=sin, env=env)
         print("exit=%s out=%r err=%r" % (r["exit"], r["out"], r["err"][:300]))
         return 1 if r["exit"] == 0 and c["kind"] in ("structural", "bytes") else 0
     r = core.run_zerv(ctx.bins, c["argv"], stdin=c.get("stdin"), env=env)
